@@ -29,8 +29,8 @@ KINDS = ["kmeans", "gmm", "isv", "jfa", "wccn", "jfa_bag", "isv_bag", "isv_late_
          "jfa_cold_ubm"]
 
 
-def triple(draw):
-    kind = gen.choice(draw, KINDS)
+def triple(draw, kind=None):
+    kind = kind or gen.choice(draw, KINDS)
     seed = gen.integer(draw, 0, 2**16)
     r = gen.rng(draw)
     t = {"kind": kind, "seed": seed}
@@ -363,3 +363,32 @@ def c_perm(ctx, case):
             if case["kind"] in ("kmeans", "gmm"):
                 scale += float(np.abs(case["X"]).max()) ** (2 if k in ("variances", "criterion") else 1)
             ctx.close(got[k], w, "%s after %s" % (k, what), rtol=1e-7, atol=1e-9 * scale)
+
+
+def g_own_ubm(draw):
+    # a machine that trains its own UBM from the rows of fit_using_array; the classes get other ids
+    t = triple(draw, kind=gen.choice(draw, ["isv_cold_ubm", "jfa_cold_ubm"]))
+    K = int(np.max(t["y"])) + 1
+    t["relabel"] = gen.permutation(draw, K)
+    return t
+
+
+@REG.obligation("class_names_do_not_matter_when_the_machine_trains_its_own_ubm", g_own_ubm, quick=60, thorough=1200, shard_size=10)
+def c_own_ubm(ctx, case):
+    """fit_using_array on a machine without UBM: the UBM is trained on the rows as given and the model does not depend
+    on which integer names the classes carry."""
+    if not str(case.get("kind", "")).endswith("_cold_ubm"):
+        ctx.discard("not a cold-UBM case")
+    rel = np.asarray(case["relabel"])
+    try:
+        base = fit_triple(case)
+        other = fit_triple(dict(case, y=rel[np.asarray(case["y"])]))
+    except np.linalg.LinAlgError:
+        ctx.discard("cold-start UBM left a component without data (training refused)")
+    for v in list(base.values()) + list(other.values()):
+        if not np.isfinite(v).all():
+            ctx.discard("cold-start UBM training gave a non-finite model (empty k-means cluster)")
+    y = np.asarray(case["y"])
+    ctx.note(list(rel) != sorted(rel) and list(y) != sorted(y), case["kind"], "unsorted-labels" if list(y) != sorted(y) else "sorted-labels")
+    for k, w in base.items():
+        ctx.close(other[k], w, "%s after renaming the classes (own UBM)" % k, rtol=1e-7, atol=1e-9 * (np.abs(w).max() + 1e-300))
